@@ -8,7 +8,7 @@
    (C05_truncation_before_repair). *)
 From Coq Require Import String List ZArith Permutation.
 From Verif Require Import Base.GoFloat Cpumem.Types Cpumem.Schedule Cpumem.Calc Cpumem.SchedCase.
-From Verif Require Import Cpumem.SchedProofsPieces Cpumem.SchedProofsTop Cpumem.SchedProofsDeploy.
+From Verif Require Import Cpumem.SchedProofsPieces Cpumem.SchedProofsTop Cpumem.SchedProofsDeploy Cpumem.SchedProofsExtra Cpumem.SchedProofsExamples.
 Local Open Scope Z_scope.
 
 (* the arithmetic core, analytically (Flocq): two correctly rounded operations
@@ -35,6 +35,20 @@ Theorem C05_exact : forall sortf,
          /\ total_pieces (snd tp) = k.
 Proof. exact plans_exact. Qed.
 Print Assumptions C05_exact.
+
+(* for ANY float request (on the decimal grid or not): every plan totals exactly
+   int(math.Round(request * base)) pieces, the request times the share base to the nearest
+   piece, with the same core layout *)
+Theorem C05_nearest_piece : forall sortf,
+  (forall l, exists l', sortf l = Ok l' /\ Permutation l' l) ->
+  forall info origin base maxfrag req numa_order fuel plans,
+  get_cpu_plans_g sortf info origin base maxfrag req numa_order fuel = Ok plans ->
+  wf_maps info -> NoDup numa_order -> 0 < base ->
+  forall tp, In tp plans ->
+    let pr := pieces_request base (rq_cpu_req req) in
+    0 < pr /\ total_pieces (snd tp) = pr /\ c05_plan_ok base pr (snd tp) = true.
+Proof. exact plans_total_nearest. Qed.
+Print Assumptions C05_nearest_piece.
 
 (* the amount recorded for the workload agrees with the pieces it was given *)
 Theorem C05_recorded : forall sortf,
